@@ -113,6 +113,10 @@ def build(combo, rng, variant):
         # a hop count already at its limit (this implementation does not enforce the limit: the bundle goes where its route says,
         # and the report must say what happened to it)
         blocks.append(dict(type=10, num=7, flags=0, crc_type=crc, data=cw.enc([[4, 4], [0, 0], [4, 9]][combo['mask'] % 3]), crc=None))
+    if (combo['mask'] + crc) % 3 == 2 and combo['outcome'] in ('deliver', 'forward', 'deliver-admin'):
+        # an extension block of a type this node does not implement, with processing-control flags set (delete the bundle / report /
+        # discard the block if it cannot be processed): whatever the node does about it, the report says what happened to the bundle
+        blocks.append(dict(type=201, num=12, flags=[0x04, 0x02, 0x10, 0x06][(combo['mask'] // 3) % 4], crc_type=crc, data=b'\x01\x02', crc=None))
     if combo['outcome'] == 'forward-frag':
         plen = max(plen, 300)
     blocks.append(dict(type=1, num=1, flags=0, crc_type=crc, data=bytes((i * 13 + 5) & 0xFF for i in range(plen)), crc=None))
